@@ -31,6 +31,8 @@ type kTok struct {
 }
 
 type kTimer struct {
+	id      int  // creation order
+	bound   bool // a callback goroutine has been matched to this timer
 	rec     *kRec
 	retry   bool // retry timer (else removal timer)
 	due     time.Duration
@@ -71,6 +73,7 @@ type kModel struct {
 	incs    map[int]int     // incarnation counter per key
 	ctorN   map[int]int     // constructor calls per key
 	byID    map[int]*kRec
+	nTimers int
 }
 
 func newModel() *kModel {
@@ -219,7 +222,8 @@ func (m *kModel) remove(r *kRec) {
 		m.removeNow(r)
 		return
 	}
-	t := &kTimer{rec: r, due: m.now() + m.delay}
+	m.nTimers++
+	t := &kTimer{id: m.nTimers, rec: r, due: m.now() + m.delay}
 	r.remove = t
 	m.timers = append(m.timers, t)
 }
@@ -326,9 +330,11 @@ func (m *kModel) Exit(t *kTok, err error) {
 			d := m.bo[r.boIdx%len(m.bo)]
 			r.boIdx++
 			if d >= 0 {
-				tm := &kTimer{rec: r, retry: true, due: m.now() + time.Duration(d)*time.Millisecond}
+				m.nTimers++
+				tm := &kTimer{id: m.nTimers, rec: r, retry: true, due: m.now() + time.Duration(d)*time.Millisecond}
 				r.retry = tm
 				m.timers = append(m.timers, tm)
+				m.Fire() // a zero interval has fired already: Stop can no longer recall it
 			}
 		}
 	}
@@ -357,6 +363,48 @@ func (m *kModel) removeEffective(t *kTimer) bool {
 	return r.present && r.remove != nil
 }
 
+// BindCallback matches a newly seen callback goroutine of record r to the oldest
+// fired timer of that kind and record that has no goroutine yet (callback
+// goroutines are created in firing order). It returns the timer id, or 0.
+func (m *kModel) BindCallback(retry bool, r *kRec) int {
+	m.Fire()
+	for _, t := range m.fired {
+		if t.retry == retry && t.rec == r && !t.bound {
+			t.bound = true
+			return t.id
+		}
+	}
+	return 0
+}
+
+// TimerSectionID applies the critical section of the callback of timer id.
+func (m *kModel) TimerSectionID(retry bool, r *kRec, id int) (stale bool) {
+	m.Fire()
+	for i, t := range m.fired {
+		if t.id != id {
+			continue
+		}
+		m.fired = append(m.fired[:i], m.fired[i+1:]...)
+		if retry && r.retry == t {
+			r.retry = nil
+		}
+		if t.stopped {
+			return true
+		}
+		if retry {
+			if m.ctxID != 0 && r.present && (r.status == stFailed || r.status == stSucceeded) {
+				m.start(r, true)
+			}
+			return false
+		}
+		if r.present && r.remove != nil {
+			m.removeNow(r)
+		}
+		return false
+	}
+	return m.TimerSection(retry, r)
+}
+
 // TimerSection applies the critical section of a fired timer callback of record
 // r (the hook point identifies the record). A callback whose timer was stopped
 // after it had fired (Timer.Stop cannot recall it) must have no effect: the key
@@ -365,6 +413,7 @@ func (m *kModel) removeEffective(t *kTimer) bool {
 // current release delay expired. Live callbacks of one record are preferred over
 // stopped ones when both wait (they are indistinguishable at the hook point).
 func (m *kModel) TimerSection(retry bool, r *kRec) (stale bool) {
+	m.Fire() // a zero interval fires without any advance of the clock
 	pick := -1
 	for i, t := range m.fired {
 		if t.retry != retry || t.rec != r {
